@@ -82,3 +82,20 @@ func debugGuards(repo string) int {
 	}
 	return 0
 }
+
+func debugExits(repo string) int {
+	w, err := LoadRepo(repo, BuildConfig{GOOS: "linux", GOARCH: "amd64"})
+	if err != nil {
+		fmt.Println("ERROR", err)
+		return 2
+	}
+	exits, err := objectNameExits(w)
+	if err != nil {
+		fmt.Println(err)
+		return 2
+	}
+	for _, e := range exits {
+		fmt.Printf("%-24s %s\n", w.Pos(e.Ret.Pos()), e.Class)
+	}
+	return 0
+}
